@@ -18,6 +18,13 @@ impl Duration {
         Duration { nanos: secs as u128 * 1_000_000_000 }
     }
 
+    /// whole seconds (std: the `secs` field; a std Duration never holds more than u64::MAX seconds)
+    /// (the u128 model covers more than std can represent; a value std could hold is required)
+    pub fn as_secs(&self) -> (r: u64)
+        requires self.nanos / 1_000_000_000 <= u64::MAX,
+        ensures r == self.nanos / 1_000_000_000,
+    { (self.nanos / 1_000_000_000) as u64 }
+
     pub open spec fn from_millis_spec(millis: u64) -> Duration {
         Duration { nanos: (millis as u128 * 1_000_000) as u128 }
     }
